@@ -63,7 +63,7 @@ def contention_case(draw):
     best single pair is often not part of the optimal assignment (greedy != optimal)."""
     n = draw(st.integers(2, 5))
     m = draw(st.integers(2, 5))
-    kind = draw(st.sampled_from(["TimeInterval", "BoundingBox", "mixed", "time_mixed", "near_tie"]))
+    kind = draw(st.sampled_from(["TimeInterval", "BoundingBox", "mixed", "time_mixed", "near_tie", "time_only_near_zero"]))
     ts = draw(st.sampled_from([2.0**-3, 1.0, 8.0]))
     fs = draw(st.sampled_from([128.0, 8192.0]))
 
@@ -86,6 +86,18 @@ def contention_case(draw):
             c = [[ts * a, fs * 1.0], [ts * (a + ln), fs * 2.0]]
         return {"type": k, "coordinates": c, "meta": {}}
 
+    if kind == "time_only_near_zero":
+        # nothing but time stamps and time intervals, within a few buffers of time 0 (the buffered start is clamped at 0)
+        tb = ts / 8
+
+        def tone():
+            a = tb * draw(st.integers(0, 12)) / 4
+            if draw(st.booleans()):
+                return {"type": "TimeStamp", "coordinates": a, "meta": {}}
+            return {"type": "TimeInterval", "coordinates": [a, a + tb * draw(st.integers(1, 12)) / 4], "meta": {}}
+
+        pool = [tone() for _ in range(n + m)]
+        return {"pool": pool, "src": list(range(n)), "tgt": list(range(n, n + m)), "tb": tb, "fb": fs / 8}
     if kind == "near_tie":
         # all geometries overlap each other and two complete pairings have totals that differ by 1e-8 .. 1e-6 (not exactly tied):
         # intervals on the grid whose ends are moved by a few tenths of a microsecond
